@@ -143,7 +143,7 @@ func enumC01(t *testing.T) {
 	ev.ExtraAdd("enumerated_nontrivial_distinct_by_construction", nt)
 }
 
-var c01Kinds = []string{"string", "int8", "int16", "int32", "int64", "int", "uint8", "uint16", "uint32", "uint64", "uint", "float32", "float64", "slice:int", "slice:string", "slice:struct"}
+var c01Kinds = []string{"string", "int8", "int16", "int32", "int64", "int", "uint8", "uint16", "uint32", "uint64", "uint", "float32", "float64", "slice:int", "slice:string", "slice:struct", "slice:uint8", "slice:float64", "slice:bool"}
 
 var hostileBounds = []int64{0, 1, -1, 2, 3, 7, -7, 127, 128, -128, -129, 255, 256, 32767, 32768, -32768, 65535, 65536, 1<<31 - 1, 1 << 31, -(1 << 31), 1<<32 - 1, 1 << 32,
 	1 << 53, 1<<53 + 1, -(1 << 53), math.MaxInt64, math.MaxInt64 - 1, math.MinInt64, math.MinInt64 + 1}
@@ -249,9 +249,24 @@ func genC01Case(t *rapid.T) (*ScalarCase, bool) {
 		default:
 			et, ev1 = desc.T{K: "struct", Fields: []desc.F{{Name: "A", T: desc.Scalar("int")}}}, desc.V{E: []desc.V{{I: 1}}}
 		}
+		switch ek {
+		case "uint8":
+			et, ev1 = desc.Scalar("uint8"), desc.V{U: 65}
+		case "float64":
+			et, ev1 = desc.Scalar("float64"), desc.V{F: 1.5}
+		case "bool":
+			et, ev1 = desc.Scalar("bool"), desc.V{B: true}
+		}
 		c.T = desc.Slice(et)
 		for i := int64(0); i < n; i++ {
 			c.Val.E = append(c.Val.E, ev1)
+		}
+		if ek == "uint8" && n >= 2 {
+			// a byte slice holding multi-byte UTF-8 text: its measure is still the number of elements
+			b := []byte(strings.Repeat("你好é😀", 6))[:n]
+			for i := range c.Val.E {
+				c.Val.E[i] = desc.V{U: uint64(b[i])}
+			}
 		}
 	case isFloat:
 		f := float64(target)
